@@ -17,7 +17,9 @@
          write nothing on the render path reads.
   R17.i  200 status / a response on every path / raises only for an explicitly requested unknown format.
   R17.k  provenance and precedence of the negotiated mime (format parameter, Accept header, default).
-  R17.l  JSON bodies: the renderer's own encoder applied to the endpoint result; JSONP padding; stream re-chunkers.
+  R17.l  JSON bodies: the renderer's own encoder applied to the endpoint result (a method of the tree the serialization is
+         delegated to is followed through its returns; a padded body bound on several branches is judged per branch);
+         JSONP padding; stream re-chunkers.  (Kinds of the chunks -- list / tuple / lazy iterator -- and R17.n: c17_total.py.)
   R17.m  optional FunctionBuilder attributes (pinned boltons) are used as text only behind a presence test.
 (each described at its check_* function)
 """
@@ -1338,13 +1340,29 @@ def check_json_bodies(rep, repo, base):
                       'a JSONP body is callback + "(" + JSON + ")" and is built only when the request names a callback')
     n = 0
     judged = set()
-    for q in ('JSONRender.__call__', 'JSONPRender.__call__'):
-        f = simple.func(q)
+
+    def parts_of(f, ctx, q, level=0):
+        """(Flow, json_part, flatten) of one function whose endpoint result is the parameter ``ctx``: the renderer's
+        __call__, or a method of the tree it delegates the serialization to (followed through its returns)."""
         fl = Flow(f)
-        ps = _request_params(f)
-        if not ps:
-            raise AnalysisError('%s takes no endpoint result' % q)
-        ctx = 'context' if 'context' in ps else ps[-1]
+
+        def delegated(v, at):
+            """(method / function of the tree, its parameter that receives the endpoint result) for ``self.m(.., ctx, ..)``."""
+            if level >= 2 or not isinstance(v, ast.Call) or any(isinstance(a, ast.Starred) for a in v.args) or fl.defs.get(ctx):
+                return None
+            try:
+                callee = base.follow_resolver(repo, f)(v)
+            except Exception:
+                callee = None
+            if callee is None:
+                return None
+            cps = list(callee.params())
+            static = any(isinstance(d, ast.Name) and d.id == 'staticmethod' for d in callee.node.decorator_list)
+            if callee.cls is not None and not static and cps:
+                cps = cps[1:]
+            bound = [cps[i] for i, a in enumerate(v.args) if i < len(cps) and norm(fl.resolve(a, at)) == ctx] + \
+                [k.arg for k in v.keywords if k.arg in cps and norm(fl.resolve(k.value, at)) == ctx]
+            return (callee, bound[0]) if len(bound) == 1 else None
 
         def json_part(expr, at, depth=0, lenient=False):
             """'stream' / 'whole' when every value flowing into expr is the renderer's encoder applied to the context;
@@ -1379,6 +1397,21 @@ def check_json_bodies(rep, repo, base):
                         return None, bad2 if bad2 is not None else lf.value
                     rechunked(w[0], v)
                     kinds.add('stream')
+                    continue
+                d = delegated(v, lf.stmt) if not whole else None
+                if d is not None:
+                    # the serialization is delegated to a method of the tree: each of its returns is judged in its place
+                    from .common import cfg_of
+                    rets = returns_of(d[0])
+                    cfg = cfg_of(d[0])
+                    if not rets or cfg.exit in cfg.reach([cfg.entry], avoid=set(cfg.nodes_of_all(rets)), normal_only=True):
+                        return None, lf.value
+                    fl2, part2, _fl = parts_of(d[0], d[1], '%s (for %s)' % (d[0].qualname, q), level + 1)
+                    for r in rets:
+                        k2, bad2 = part2(r.value, r, 0, lenient) if r.value is not None else (None, r)
+                        if not k2:
+                            return None, bad2 if bad2 is not None else lf.value
+                        kinds.update(k2)
                     continue
                 if not (isinstance(v, ast.Call) and isinstance(v.func, ast.Attribute) and v.func.attr in ('encode', 'iterencode')
                         and len(v.args) == 1 and not v.keywords):
@@ -1474,6 +1507,47 @@ def check_json_bodies(rep, repo, base):
             if isinstance(c, str):
                 return [('const', c)]
             return [('expr', x)]
+        return fl, json_part, flatten
+
+    for q in ('JSONRender.__call__', 'JSONPRender.__call__'):
+        f = simple.func(q)
+        ps = _request_params(f)
+        if not ps:
+            raise AnalysisError('%s takes no endpoint result' % q)
+        ctx = 'context' if 'context' in ps else ps[-1]
+        fl, json_part, flatten = parts_of(f, ctx, q)
+
+        def jsonp_verdict(body, b_at, at):
+            """(ok, why not) for one way the padded body is built; ``at``: the statement that builds the Response."""
+            items = flatten(body, b_at)
+            bad = [x for kind, x in items if kind == 'bad']
+            js = [i for i, (kind, x) in enumerate(items) if kind == 'json']
+            ok, why = True, ''
+            if bad:
+                ok, why = False, 'part of the body (%s) is neither text nor the renderer\'s encoder applied to %s' % (short(bad[0], 50), ctx)
+            elif len(js) != 1:
+                ok, why = False, 'the body holds %d JSON part(s), expected exactly one' % len(js)
+            else:
+                pre, post = items[:js[0]], items[js[0] + 1:]
+                exprs = [x for kind, x in pre if kind == 'expr']
+                if len(exprs) != 1 or not _query_param_read(fl, f, exprs[0], b_at):
+                    ok, why = False, 'the text before the JSON does not consist of this request\'s callback parameter and "("'
+                else:
+                    idx = [i for i, (kind, x) in enumerate(pre) if kind == 'expr'][0]
+                    before = ''.join(x for kind, x in pre[:idx])
+                    after = ''.join(x for kind, x in pre[idx + 1:])
+                    tail = ''.join(x for kind, x in post) if all(kind == 'const' for kind, x in post) else None
+                    if before.strip() not in ('', '/**/') or after.strip() != '(':
+                        ok, why = False, 'the padding before the JSON is %r <callback> %r, expected <callback> "("' % (before, after)
+                    elif tail is None or tail.strip() not in (')', ');'):
+                        ok, why = False, 'the padding after the JSON is %s, expected ")"' % ('%r' % tail if tail is not None else 'not constant')
+                    else:
+                        cs = list(fl.conds(at))
+                        present = any(_present_tested(t, p) is not None and _query_param_read(fl, f, _present_tested(t, p), at) for t, p in cs)
+                        if not present:
+                            ok, why = False, 'the padded body is built although the request may carry no callback (conditions: %s)' \
+                                % ('; '.join(cond_texts(cs)) or 'none')
+            return ok, why
 
         for c in walk_body(f.node):
             if not (isinstance(c, ast.Call) and base._is_response(simple, c)):
@@ -1492,37 +1566,19 @@ def check_json_bodies(rep, repo, base):
                           '.iterencode) applied to the endpoint result %s: that path bypasses the encoder\'s conversions, options and '
                           'dev-mode fallback' % (q, short(bad, 60), ctx), simple, c)
             elif mt == 'application/javascript':
-                items = flatten(body, at)
-                bad = [x for kind, x in items if kind == 'bad']
-                js = [i for i, (kind, x) in enumerate(items) if kind == 'json']
-                ok, why = True, ''
-                if bad:
-                    ok, why = False, 'part of the body (%s) is neither text nor the renderer\'s encoder applied to %s' % (short(bad[0], 50), ctx)
-                elif len(js) != 1:
-                    ok, why = False, 'the body holds %d JSON part(s), expected exactly one' % len(js)
-                else:
-                    pre, post = items[:js[0]], items[js[0] + 1:]
-                    exprs = [x for kind, x in pre if kind == 'expr']
-                    if len(exprs) != 1 or not _query_param_read(fl, f, exprs[0], at):
-                        ok, why = False, 'the text before the JSON does not consist of this request\'s callback parameter and "("'
-                    else:
-                        idx = [i for i, (kind, x) in enumerate(pre) if kind == 'expr'][0]
-                        before = ''.join(x for kind, x in pre[:idx])
-                        after = ''.join(x for kind, x in pre[idx + 1:])
-                        tail = ''.join(x for kind, x in post) if all(kind == 'const' for kind, x in post) else None
-                        if before.strip() not in ('', '/**/') or after.strip() != '(':
-                            ok, why = False, 'the padding before the JSON is %r <callback> %r, expected <callback> "("' % (before, after)
-                        elif tail is None or tail.strip() not in (')', ');'):
-                            ok, why = False, 'the padding after the JSON is %s, expected ")"' % ('%r' % tail if tail is not None else 'not constant')
-                        else:
-                            cs = list(fl.conds(at))
-                            present = any(_present_tested(t, p) is not None and _query_param_read(fl, f, _present_tested(t, p), at) for t, p in cs)
-                            if not present:
-                                ok, why = False, 'the padded body is built although the request may carry no callback (conditions: %s)' \
-                                    % ('; '.join(cond_texts(cs)) or 'none')
+                # a body bound on several branches (chained when streaming, concatenated when buffering): every
+                # alternative is judged as a padded body of its own
+                alts = [(body, at)]
+                if isinstance(body, ast.Name):
+                    lvs = fl.leaves(body, at)
+                    if len(lvs) > 1 and all(not lf.opaque and lf.value is not body for lf in lvs):
+                        alts = [(lf.value, lf.stmt) for lf in lvs]
+                verdicts = [jsonp_verdict(b, b_at, at) for b, b_at in alts]
+                ok, why = all(v[0] for v in verdicts), next((v[1] for v in verdicts if not v[0]), '')
                 rep.check('R17.l', fkey(f, 'jsonp body of %s' % short(c, 50)), ok,
                           'the body is <callback>( + self.json_encoder applied to %s + ), built only when the request names a callback' % ctx
                           if ok else '%s: %s' % (q, why), simple, c)
+
         # the plain-JSON continuation of the JSONP renderer gets the endpoint result itself
         for r in returns_of(f):
             v = r.value
